@@ -178,6 +178,10 @@ class SFTPFile(BufferedFile):
 
     def _read(self, size):
         size = min(size, self.MAX_REQUEST_SIZE)
+        if self._wbuffer.tell() > 0:
+            # buffered writes come first: they may be what is read back, and
+            # they move the file position
+            self.flush()
         if self._prefetching:
             data = self._read_prefetch(size)
             if data is not None:
